@@ -9,6 +9,7 @@ import (
 	"fmt"
 	"io"
 	"net/http"
+	"sort"
 	"strings"
 	"time"
 
@@ -196,7 +197,7 @@ func init() {
 		},
 		Budget: func(tier string) time.Duration {
 			if tier == "quick" {
-				return 70 * time.Second
+				return 150 * time.Second
 			}
 			return 10 * time.Minute
 		},
@@ -235,6 +236,10 @@ func init() {
 					}
 				}
 			}
+			// fault-free scenarios first (cheap, and every (N, m) shape is seen before the budget can run out)
+			sort.SliceStable(out, func(i, j int) bool {
+				return strings.Contains(out[i].Name, "no-fault") && !strings.Contains(out[j].Name, "no-fault")
+			})
 			return out
 		},
 	}
